@@ -45,11 +45,11 @@ CONFIGS = [
     {"name": "three-peers/wakeup6", "apps": [{"app_id": 4, "auth": True, "peers": [0, 1, 2]}],
      "peers": 3, "timers": {"cer": 5, "cea": 5, "wakeup": 6}, "ptimers": {"cea": 9}},
 ]
-SYMS_IN = ["CER_known", "CER_unknown", "CER_nocommon", "CER_relay", "CEA_2001", "CEA_3xxx", "CEA_5xxx",
+SYMS_IN = ["CER_known", "CER_known_case", "CER_unknown", "CER_nocommon", "CER_relay", "CEA_2001", "CEA_3xxx", "CEA_5xxx",
            "DWR", "DWA", "DPR", "DPA", "REQ", "ANS", "ADV1", "ADVT"]
 SYMS_OUT = ["CEA_2001", "CEA_3xxx", "CEA_5xxx", "CER_known", "DWR", "DWA", "DPR", "DPA", "REQ", "ANS",
-            "ADV1", "ADVT", "CEA_2001_vsa", "CEA_2002", "CEA_1001", "CEA_4xxx"]
-CER_SYMS = {"CER_known", "CER_unknown", "CER_nocommon", "CER_relay"}
+            "ADV1", "ADVT", "CEA_2001_vsa", "CEA_2002", "CEA_1001", "CEA_4xxx", "CEA_2001_case"]
+CER_SYMS = {"CER_known", "CER_known_case", "CER_unknown", "CER_nocommon", "CER_relay"}
 
 
 def world_cfg(c, direction, seed=0):
@@ -211,7 +211,7 @@ def evaluate(case) -> Result:
                 elif direction == "in":
                     kind = s
                     known = kind != "CER_unknown"
-                    shares = kind in ("CER_known",) and bool(auth | acct)
+                    shares = kind in ("CER_known", "CER_known_case") and bool(auth | acct)
                     relay = kind == "CER_relay"
                     behind = new[1:] if glued else []
                     if glued:
@@ -268,9 +268,9 @@ def evaluate(case) -> Result:
                     if new_req:
                         res.v("C06/in/cer/delivered", "a CER reached an application")
                 else:   # outbound, a CEA
-                    if new and not (glued and s in ("CEA_2001", "CEA_2001_vsa")):
+                    if new and not (glued and s in ("CEA_2001", "CEA_2001_vsa", "CEA_2001_case")):
                         res.v("C06/out/cea/answered", f"{s} was answered with {[f.brief() for f in new]}")
-                    if s in ("CEA_2001", "CEA_2001_vsa"):
+                    if s in ("CEA_2001", "CEA_2001_vsa", "CEA_2001_case"):
                         if not is_ready and glued not in ("DPR", "DPA"):
                             res.v("C06/out/cea/not-ready", "2001 CEA received but the connection is not ready")
                         state = "left" if glued in ("DPR", "DPA") else "ready"
@@ -345,8 +345,10 @@ def probe_not_routable(w, res, direction):
 def make_msg(s, hbh, conn, c):
     auth, acct = node_apps(c)
     base = {"hbh": hbh, "e2e": hbh}
-    if s == "CER_known":
-        return dict(base, k="CER", host="peer1.example", auth=sorted(auth) or [4], acct=sorted(acct))
+    if s in ("CER_known", "CER_known_case"):
+        # DiameterIdentity is case-insensitive: the peer may spell its own name differently from the configuration
+        return dict(base, k="CER", host="peer1.example" if s == "CER_known" else "Peer1.EXAMPLE",
+                    auth=sorted(auth) or [4], acct=sorted(acct))
     if s == "CER_unknown":
         return dict(base, k="CER", host="stranger.example", auth=sorted(auth) or [4])
     if s == "CER_nocommon":
@@ -359,8 +361,8 @@ def make_msg(s, hbh, conn, c):
         cers = [f for f in conn.out if f.code == W.CMD_CE and f.is_request]
         ids = {"hbh": cers[-1].h["hbh"], "e2e": cers[-1].h["e2e"]} if cers else base
         rc = {"CEA_2001": 2001, "CEA_3xxx": 3010, "CEA_5xxx": 5010, "CEA_2001_vsa": 2001, "CEA_2002": 2002,
-              "CEA_1001": 1001, "CEA_4xxx": 4003}[s]
-        m = dict(ids, k="CEA", host="peer1.example", result=rc, auth=sorted(auth) or [4], acct=sorted(acct))
+              "CEA_1001": 1001, "CEA_4xxx": 4003, "CEA_2001_case": 2001}[s]
+        m = dict(ids, k="CEA", host="PEER1.Example" if s == "CEA_2001_case" else "peer1.example", result=rc, auth=sorted(auth) or [4], acct=sorted(acct))
         return m
     if s in ("DWR", "DWA", "DPR", "DPA"):
         return dict(base, k=s, host="peer1.example")
